@@ -2,4 +2,4 @@
 From Coq Require Import Extraction ExtrOcamlBasic.
 From Celer Require Import C02.TrackInit C02.Run.
 Extraction Language OCaml.
-Extraction "c02model.ml" run_case.
+Extraction "c02model.ml" run_case fresh_case.
